@@ -130,19 +130,21 @@ Section C13.
     end.
 
   (** ** LinkLayerDecryptor *)
-  Record dstate := { keys : list bytes; mats : list material; managers : list (bytes * mgr) }.
+  (** [self.managers] is a dict keyed by (key, index of the session material) *)
+  Record dstate := { keys : list bytes; mats : list material; managers : list ((bytes * N) * mgr) }.
 
-  Fixpoint lookup (k : bytes) (l : list (bytes * mgr)) : option mgr :=
+  Fixpoint lookup (k : bytes) (i : N) (l : list ((bytes * N) * mgr)) : option mgr :=
     match l with
     | [] => None
-    | (k', m) :: r => if bytes_eqb k k' then Some m else lookup k r
+    | ((k', i'), m) :: r => if (bytes_eqb k k' && N.eqb i i')%bool then Some m else lookup k i r
     end.
 
-  (** [self.managers[key] = manager] (dict: replace in place, else append) *)
-  Fixpoint store (k : bytes) (m : mgr) (l : list (bytes * mgr)) : list (bytes * mgr) :=
+  (** [self.managers[(key, i)] = manager] (dict: replace in place, else append) *)
+  Fixpoint store (k : bytes) (i : N) (m : mgr) (l : list ((bytes * N) * mgr)) : list ((bytes * N) * mgr) :=
     match l with
-    | [] => [(k, m)]
-    | (k', m') :: r => if bytes_eqb k k' then (k', m) :: r else (k', m') :: store k m r
+    | [] => [((k, i), m)]
+    | ((k', i'), m') :: r => if (bytes_eqb k k' && N.eqb i i')%bool then ((k', i'), m) :: r
+                             else ((k', i'), m') :: store k i m r
     end.
 
   (** the decrypted packet as bytes: BTLE_DATA(payload[:2] + plaintext) with len -= 4 *)
@@ -152,44 +154,45 @@ Section C13.
     | _ => p
     end.
 
-  (** body of the two nested loops for one (material, key) *)
-  Definition try_key (mgrs : list (bytes * mgr)) (key : bytes) (mat : material) (pdu : bytes)
-    : list (bytes * mgr) * outcome (option bytes) :=
-    let cached := lookup key mgrs in
+  (** body of the two nested loops for one (material of index [i], key) *)
+  Definition try_key (mgrs : list ((bytes * N) * mgr)) (key : bytes) (i : N) (mat : material) (pdu : bytes)
+    : list ((bytes * N) * mgr) * outcome (option bytes) :=
+    let cached := lookup key i mgrs in
     match (match cached with Some m => Ok m | None => mk_manager key mat end) with
     | Raise e => (mgrs, Raise e)
     | Ok m =>
-      let keep st := match cached with Some _ => store key st mgrs | None => mgrs end in
+      let keep st := match cached with Some _ => store key i st mgrs | None => mgrs end in
       match decrypt m pdu M2S 2 with
       | (st1, Raise e) => (keep st1, Raise e)
-      | (st1, Ok (p, true)) => (store key (incr st1 M2S) mgrs, Ok (Some (strip_mic_len p)))
+      | (st1, Ok (p, true)) => (store key i (incr st1 M2S) mgrs, Ok (Some (strip_mic_len p)))
       | (st1, Ok (_, false)) =>
         match decrypt st1 pdu S2M 2 with
         | (st2, Raise e) => (keep st2, Raise e)
-        | (st2, Ok (p, true)) => (store key (incr st2 S2M) mgrs, Ok (Some (strip_mic_len p)))
+        | (st2, Ok (p, true)) => (store key i (incr st2 S2M) mgrs, Ok (Some (strip_mic_len p)))
         | (st2, Ok (_, false)) => (keep st2, Ok None)
         end
       end
     end.
 
-  Fixpoint try_keys (mgrs : list (bytes * mgr)) (ks : list bytes) (mat : material) (pdu : bytes)
-    : list (bytes * mgr) * outcome (option bytes) :=
+  Fixpoint try_keys (mgrs : list ((bytes * N) * mgr)) (ks : list bytes) (i : N) (mat : material) (pdu : bytes)
+    : list ((bytes * N) * mgr) * outcome (option bytes) :=
     match ks with
     | [] => (mgrs, Ok None)
     | k :: r =>
-      match try_key mgrs k mat pdu with
-      | (mgrs', Ok None) => try_keys mgrs' r mat pdu
+      match try_key mgrs k i mat pdu with
+      | (mgrs', Ok None) => try_keys mgrs' r i mat pdu
       | res => res
       end
     end.
 
-  Fixpoint try_mats (mgrs : list (bytes * mgr)) (ks : list bytes) (ms : list material) (pdu : bytes)
-    : list (bytes * mgr) * outcome (option bytes) :=
+  (** [for i, skd in enumerate(self.master_skd)] *)
+  Fixpoint try_mats (mgrs : list ((bytes * N) * mgr)) (ks : list bytes) (i : N) (ms : list material) (pdu : bytes)
+    : list ((bytes * N) * mgr) * outcome (option bytes) :=
     match ms with
     | [] => (mgrs, Ok None)
     | mat :: r =>
-      match try_keys mgrs ks mat pdu with
-      | (mgrs', Ok None) => try_mats mgrs' ks r pdu
+      match try_keys mgrs ks i mat pdu with
+      | (mgrs', Ok None) => try_mats mgrs' ks (N.succ i) r pdu
       | res => res
       end
     end.
@@ -202,7 +205,7 @@ Section C13.
     | _, _ =>
       if (N.eqb (nth 1 pdu 0%N) 0 && N.eqb (N.land (nth 0 pdu 0%N) 3) 1)%bool then (ds, Ok None)
       else
-        let '(mgrs', r) := try_mats (managers ds) (keys ds) (mats ds) pdu in
+        let '(mgrs', r) := try_mats (managers ds) (keys ds) 0%N (mats ds) pdu in
         ({| keys := keys ds; mats := mats ds; managers := mgrs' |}, r)
     end.
 
@@ -686,8 +689,8 @@ Definition check_mgr (c : mgr_case) : bool :=
   end.
 
 (** decryptor case: keys, materials, captured PDUs, observed results (kind 0 = None,
-    1 = decrypted packet bytes, 3 = exception), observed (key, master_cnt, slave_cnt) of
-    the cached managers at the end *)
+    1 = decrypted packet bytes, 3 = exception), observed (key, material index, master_cnt,
+    slave_cnt) of the cached managers at the end *)
 Definition dobs := (N * bytes)%type.
 
 Definition dobs_of (o : outcome (option bytes)) : dobs :=
@@ -697,7 +700,7 @@ Definition dobs_of (o : outcome (option bytes)) : dobs :=
   | Raise e => (3, [exn_code e])
   end.
 
-Definition dec_case := (list bytes * list (N * N * N * N) * list bytes * list dobs * list (bytes * N * N))%type.
+Definition dec_case := (list bytes * list (N * N * N * N) * list bytes * list dobs * list (bytes * N * N * N))%type.
 
 Fixpoint dobs_list_eqb (a b : list dobs) : bool :=
   match a, b with
@@ -706,10 +709,11 @@ Fixpoint dobs_list_eqb (a b : list dobs) : bool :=
   | _, _ => false
   end.
 
-Fixpoint mgrs_eqb (a : list (bytes * mgr)) (b : list (bytes * N * N)) : bool :=
+Fixpoint mgrs_eqb (a : list ((bytes * N) * mgr)) (b : list (bytes * N * N * N)) : bool :=
   match a, b with
   | [], [] => true
-  | (k1, m) :: a', (k2, mc, sc) :: b' => bytes_eqb k1 k2 && (mcnt m =? mc) && (scnt m =? sc) && mgrs_eqb a' b'
+  | ((k1, i1), m) :: a', (k2, i2, mc, sc) :: b' =>
+    bytes_eqb k1 k2 && (i1 =? i2) && (mcnt m =? mc) && (scnt m =? sc) && mgrs_eqb a' b'
   | _, _ => false
   end.
 
